@@ -228,6 +228,17 @@ pub fn run(ctx: &Ctx) -> i32 {
             acc.sample(json!({"op": "parse_rfc3339", "text": text}));
         }
     });
+    // every whole-minute offset spelled out, on three base timestamps
+    rep.sweep("read: 3 base timestamps x every whole-minute offset spelling (+hh:mm / -hh:mm)", 3 * 2_879, "", |i, acc| {
+        let o = (i % 2_879) as i32 * 60 - 86_340;
+        let a = o.unsigned_abs();
+        let base = ["2022-05-02T15:30:20", "0001-01-01T00:00:00.5", "9999-12-31T23:59:59.999999999"][(i / 2_879) as usize];
+        let text = format!("{}{}{:02}:{:02}", base, if o < 0 { '-' } else { '+' }, a / 3600, a / 60 % 60);
+        match recognise(&text) {
+            Some((local, off, _)) => case_read(&text, Some((local - off as i128 * ins::NS, off)), if o < 0 && o > -3600 { "negative-offset-below-one-hour" } else { "offset-spelling" }, acc),
+            None => acc.violation("harness", "recogniser-rejects-generated-text", json!({"text": text}), "recognised".into(), "rejected".into()),
+        }
+    });
     // field mutations
     let mut muts: Vec<(String, &'static str)> = vec![];
     for base_date in ["2022-05-02", "2024-02-29", "1999-12-31", "0001-01-01"] {
